@@ -67,14 +67,14 @@ SIZES = {"quick": (16, 50), "thorough": (64, 256)}
 TIMEOUT = {"quick": 600, "thorough": 5400}
 COVER = {
     "discopy.quantum.cqmap:Functor._ob": 0.8,
-    "discopy.quantum.cqmap:Functor._ar": 0.9,
+    "discopy.quantum.cqmap:Functor._ar": 0.8,
     "discopy.quantum.cqmap:CQMap.tensor": 0.9,
     "discopy.quantum.cqmap:CQMap.swap": 0.9,
     "discopy.quantum.cqmap:CQMap.measure": 0.9,
     "discopy.quantum.cqmap:CQMap.discard": 0.9,
     "discopy.quantum.cqmap:CQMap.pure": 0.9,
-    "discopy.quantum.circuit:Circuit.eval": 0.3,
-    "discopy.quantum.circuit:Circuit.get_counts": 0.5,
+    "discopy.quantum.circuit:Circuit.eval": 0.4,
+    "discopy.quantum.circuit:Circuit.get_counts": 0.7,
     "discopy.quantum.circuit:Circuit.measure": 0.9,
     "discopy.quantum.circuit:Circuit.is_mixed": 0.9,
     "discopy.quantum.circuit:Circuit.init_and_discard": 0.9,
@@ -321,7 +321,10 @@ def pick_box(rng, scan, fragment):
     Discard / swaps choose a type that is actually there.
     """
     c, g = _Q["circuit"], _Q["gates"]
-    if fragment == "cptp":
+    if fragment == "bits":
+        kind = rng.choice(["bits", "copy", "stochastic", "stochastic",
+                           "swapbb"])
+    elif fragment == "cptp":
         kind = rng.choice([
             "unitary", "unitary", "unitary", "ket", "bits", "measure",
             "measure", "measure", "discard", "copy", "stochastic",
@@ -333,8 +336,8 @@ def pick_box(rng, scan, fragment):
     else:
         kind = rng.choice([
             "unitary", "unitary", "generic", "generic", "ket", "bra", "bits",
-            "bitsdag", "measure", "measure", "measure", "encode", "encode",
-            "encode", "discard", "discard", "mixedstate", "copy", "match",
+            "bitsdag", "measure", "measure", "encode", "encode",
+            "discard", "discard", "mixedstate", "copy", "match",
             "stochastic", "stochasticdag", "cgeneric", "scalar", "mscalar",
             "sqrt", "swap", "swap", "cup", "cap"])
     n12 = 1 if rng.random() < .65 else 2
@@ -354,10 +357,10 @@ def pick_box(rng, scan, fragment):
         return g.Bits(*rand_bits(rng, n12)).dagger()
     if kind == "measure":
         return c.Measure(n12, destructive=rng.random() < .5,
-                         override_bits=rng.random() < .4)
+                         override_bits=rng.random() < .3)
     if kind == "encode":
         return c.Encode(n12, constructive=rng.random() < .5,
-                        reset_bits=rng.random() < .4)
+                        reset_bits=rng.random() < .3)
     if kind == "encode0":
         return c.Encode(n12)
     if kind == "discard":
@@ -386,12 +389,15 @@ def pick_box(rng, scan, fragment):
     if kind == "mscalar":
         if rng.random() < .3:
             return g.MixedScalar(round(rng.uniform(0, 2), 3))
-        return g.scalar(rand_complex(rng) if rng.random() < .3
-                        else round(rng.uniform(0, 2), 3), is_mixed=True)
+        # real: "the Born rule has already been applied" (negative ones occur
+        # in gradients); a complex mixed scalar has no reading in the statement
+        return g.scalar(round(rng.uniform(-1, 2), 3), is_mixed=True)
     if kind == "sqrt":
         return g.sqrt(rng.choice([2, 0.5, 3, round(rng.uniform(0, 4), 2)]))
     if kind == "swapqq":
         return g.SWAP
+    if kind == "swapbb":
+        return c.Swap(_Q["bit"], _Q["bit"])
     if kind == "swap":
         if len(scan) >= 2 and rng.random() < .8:
             off = rng.randint(0, len(scan) - 2)
@@ -436,7 +442,8 @@ def rand_circuit(rng, fragment, dom=None, depth=None):
     c, g, Id = _Q["circuit"], _Q["gates"], _Q["Id"]
     if dom is None:
         n = rng.choice([0, 0, 1, 1, 2, 2, 3, 3, 4])
-        dom = n * [QUBIT] if fragment == "pure" else rand_kinds(rng, n)
+        dom = n * [QUBIT] if fragment == "pure" else n * [BIT]\
+            if fragment == "bits" else rand_kinds(rng, n)
     scan = list(dom)
     circuit = Id(ty(scan))
     depth = rng.randint(2, 8) if depth is None else depth
@@ -640,7 +647,9 @@ def marginal(array, dom, cod, drop):
 
 def case_cptp(rng, ctx):
     style = rng.random()
-    if style < .1:
+    if style < .06:       # bits only, stochastic gates
+        circuit = rand_circuit(rng, "bits", depth=rng.randint(1, 5))
+    elif style < .1:
         n = rng.randint(0, 3)
         circuit = rand_circuit(rng, "cptp", dom=n * [BIT])
     elif style < .2:
@@ -716,8 +725,13 @@ def case_cptp(rng, ctx):
                    counts=safe_repr(counts, 600),
                    evaluation=[complex(p) for p in probs[:16]], **info)
     # measure
-    pure_quantum = expected_mixed(circuit) is False
-    if pure_quantum:      # Born probabilities of the output qubits
+    # a circuit that is surely mixed: distribution of the output bits, qubits
+    # discarded.  Otherwise (no mixed box, never a bit beside a qubit: qubits
+    # only, bits only, or a closed classical part followed by qubits) measure()
+    # may read every output wire in the computational basis: the diagonal of
+    # the final operator (for bits only: again the distribution).
+    pure_quantum = expected_mixed(circuit) is not True
+    if pure_quantum:
         state = cq_sim.run(circuit, cq_sim.zero_state(dom))
         target = np.real(np.diag(state.ops))
     else:
@@ -856,12 +870,39 @@ def case_variants(rng, ctx):
                 ctx.expect("adjoint-discard-mixedstate",
                            close(value.array, target), call=call,
                            **dict(info, **worst(value.array, target)))
-    # (c) Born rule in context
+    # batch forms of eval / get_counts (two small trace-preserving circuits)
+    bitv = rng.randint(0, 1)
+    one, two = g.Ket(bitv) >> c.Measure(), c.Discard(ty(kinds))
+    ok, both = lib(ctx, "eval(other, mixed=True)",
+                   lambda: one.eval(two, mixed=True), info_of(one))
+    if ok:
+        point = [1 - bitv, bitv]
+        ctx.expect("born-rule", isinstance(both, list) and len(both) == 2
+                   and close(both[0].array, point)
+                   and close(both[1].array, cq_sim.superoperator(two)),
+                   call="eval(other, mixed=True)", **info_of(one))
+    ok, both = lib(ctx, "get_counts(other)",
+                   lambda: one.get_counts(two), info_of(one))
+    if ok:
+        good = isinstance(both, list) and len(both) == 2\
+            and all(isinstance(x, dict) for x in both)\
+            and sorted(both[0]) == [(bitv, )] and sorted(both[1]) == [()]\
+            and close(both[0][(bitv, )], 1) and close(both[1][()], 1)
+        ctx.expect("get_counts-equals-evaluation", good,
+                   call="get_counts(other)", counts=safe_repr(both, 300),
+                   **info_of(one))
+    # (c) Born rule in context, twice
+    for _ in range(2):
+        born_setup(rng, ctx)
+
+
+def born_setup(rng, ctx):
+    c, g, Id = _Q["circuit"], _Q["gates"], _Q["Id"]
     m = rng.randint(1, 3)
     n = rng.randint(1, min(2, m))
     off = rng.randint(0, m - n)
     rest = m - n - off
-    d, o = rng.random() < .5, rng.random() < .5
+    d, o = rng.random() < .5, rng.random() < .35
     psi = rand_state(rng, m)
     ok, amp = lib(ctx, "state.eval()", lambda: psi.eval(), info_of(psi))
     if not ok:
